@@ -264,6 +264,11 @@ class ClassBuilder:
       op = d(st.sampled_from(["+", "-", "*", "&", "|", "^", "+", "-", "&", "|", "^"]))
       a = self.expr(w, env, depth + 1)
       b = self.lit_or_expr(w, env, depth + 1)
+      if self.opts["sloppy"] and d(st.integers(0, 9)) == 0:
+        # C10: a comparison result (one bit) as an operand next to an explicitly sized operand of any width
+        kw = W(d, self.opts)
+        c = ["cmp", d(st.sampled_from(["==", "!=", "<", ">="])), self.sig_leaf(kw, env), self.sig_leaf(kw, env)]
+        a, b = (self.sig_leaf(w, env), c) if d(st.booleans()) else (c, self.sig_leaf(w, env))
       if self.opts["translatable"] and _is_constant(a) and _is_constant(b):
         b = self.sig_leaf(w, env)                  # constant folding would re-size a const-only expression
       if b[0] == "lit" and d(st.integers(0, 3)) == 0:
@@ -351,6 +356,25 @@ class ClassBuilder:
         tw = W(d, self.opts)
         stmts.append(["tmp", tn, self.nonlit(self.expr(tw, env))])
         env["tmps"].append((tn, tw))
+    if self.opts["sloppy"] and d(st.integers(0, 7)) == 0:
+      # C10: a temporary that is first given a bare int and then re-assigned from an explicitly sized source of exactly
+      # the literal's minimal width; later uses see it at whatever width they ask for
+      srcs = [s_ for s_ in self.bits_sources() if 1 <= s_[1] <= 12]
+      if srcs:
+        ref, sw = d(st.sampled_from(srcs))
+        v = d(st.integers(1 << (sw - 1), (1 << sw) - 1)) if sw > 1 else 1
+        self.tmpn += 1
+        tn = f"t{self.tmpn}"
+        stmts.append(["tmp", tn, ["lit", v]])
+        # (straight-line only: behind an `if` the temporary could still hold the Python int at run time, whose
+        # unbounded arithmetic has no width at all)
+        stmts.append(["tmp", tn, ["sig", ref]])
+        env["tmps"].append((tn, sw))
+        if targets and d(st.booleans()):
+          # ... and one use that asks for another width outright (must be rejected: the temporary is sw bits now)
+          tref, tw_ = targets[0]
+          if tw_ != sw and tref["sl"] is None:
+            stmts.append(["assign", tref, ["tmp", tn]])
     for ref, w in targets:
       mode = d(st.integers(0, 7))
       if mode == 0 and self.opts["loops"] and ref["sl"] is None and 2 <= w <= 24:
